@@ -110,6 +110,20 @@ def slot_new(ctx: Ctx) -> List[Ob]:
             obs.append(ctx.ob("SLOT-NEW", ["C02", "C03"], f, f"index slot store in {f.qualname}", node, ok,
                               "" if ok else f"`{norm(node)}` may overwrite an existing clone list: the nodes already filed under that data_id vanish from "
                               "the index (lookups miss them, and _register no longer sees them when checking sibling uniqueness)"))
+    # slots are created by these stores only: the two indexes are plain dicts (a defaulting mapping creates an empty slot on
+    # every lookup of an absent key, and count_unique is the number of slots)
+    for f in m.all_funcs():
+        for x in ast.walk(f.node):
+            if isinstance(x, (ast.Assign, ast.AnnAssign)):
+                tg = x.targets if isinstance(x, ast.Assign) else [x.target]
+                for t in tg:
+                    if isinstance(t, ast.Attribute) and t.attr in ("_nodes_by_data_id", "_node_by_id") and x.value is not None:
+                        v = x.value
+                        plain = (isinstance(v, ast.Dict) and not v.keys) or (isinstance(v, ast.Call) and norm(v.func) == "dict" and not v.args and not v.keywords)
+                        defaulting = isinstance(v, ast.Call) and norm(v.func).split(".")[-1] in ("defaultdict", "Counter")
+                        obs.append(ctx.tri("SLOT-NEW", ["C02"], f, f"{t.attr} is a plain dict", x, True if plain else False if defaulting else None,
+                                           f"`{norm(x)}`: a lookup of an absent key inserts an empty slot, so count_unique (the number of slots) grows with every miss "
+                                           "and `in` / find answer from a slot that holds no node"))
     return obs
 
 
@@ -473,4 +487,37 @@ def cache_inval(ctx: Ctx) -> List[Ob]:
         raise AnalysisError("CACHE-INVAL positive control not detected")
     obs.append(ctx.ob("CACHE-INVAL", ["C10"], "control:zz_cache_control", "synthetic memoised depth without invalidation is detected", None, True,
                       f"control reported `{hit[0][1]}` against `{hit[0][3]}` written in {hit[0][2].qualname}"))
+    return obs
+
+
+# ----------------------------------------------------------------- RET-USED
+#: package functions that are called for their result: discarding it silently drops what the user's callback answered
+RET_USED = {
+    "call_mapper": "the mapper may return a new object instead of patching the one it was given",
+    "call_predicate": "the verdict (keep / skip / stop) is the whole point of the call",
+}
+
+
+@rule("RET-USED", ["C05", "C06", "C08", "C12", "C14", "C17"], floor=7, section="3.6+")
+def ret_used(ctx: Ctx) -> List[Ob]:
+    """the result of call_mapper / call_predicate is used (assigned, passed on, returned, tested) at every call site: a call whose result is dropped ignores what the user's callback answered"""
+    from .own import family_props
+
+    obs: List[Ob] = []
+    m = ctx.model
+    for f in m.all_funcs():
+        for c in ctx.env.calls_in.get(f, []):
+            nm = norm(c.func).split(".")[-1]
+            if nm not in RET_USED:
+                continue
+            par = m.parent_of(c)
+            dropped = isinstance(par, ast.Expr)
+            if dropped and f.module == "dot" and nm == "call_mapper":
+                # the DOT attribute mappers patch the dict they are given (user guide, "Graphs": attr_def[...] = ...); the
+                # reference discards the result there
+                obs.append(ctx.ob("RET-USED", ["C17"], f, f"result of {nm}() in {f.qualname}: in-place contract of the DOT mappers", c, True, note=True))
+                continue
+            props = family_props(f) or (["C14"] if nm == "call_mapper" else ["C08"])
+            obs.append(ctx.ob("RET-USED", props, f, f"result of {nm}() is used in {f.qualname}", c, not dropped,
+                              "" if not dropped else f"`{norm(c)}` is an expression statement: {RET_USED[nm]}"))
     return obs
